@@ -22,11 +22,14 @@ Section S.
     a = 0 \/ exists p cp, last_non_space u code L F (a - 1) = Val p /\ getC code L p = Val cp /\ cp <> cDOT.
 
   (* chain_from s a n: to the left of the name starting at s there are n more names, each followed by one dot and
-     nothing else; none is a keyword; the chain starts at a, not preceded by a dot *)
+     nothing else; the FIRST name of the chain is no keyword (names after a dot may be spelled like keywords since rope
+     commit 2b4039e), no name before a dot is the word from itself (the relative-import test of _find_primary_start
+     would fire); the chain starts at a, not preceded by a dot *)
   Inductive chain_from : Z -> Z -> nat -> Prop :=
   | chain_one s : 0 <= s -> stops_before s -> chain_from s s O
   | chain_more s s' e' a n :
       name_at s' e' -> e' + 1 = s -> chr e' cDOT -> s <= L ->
-      iskeyword (sliceC code L s' e') = false ->
+      (n = O -> iskeyword (sliceC code L s' e') = false) ->
+      text_eqb (sliceC code L s' e') s_from = false ->
       chain_from s' a n -> chain_from s a (S n).
 End S.
